@@ -6,8 +6,32 @@ from .c11_plan import PROFILE, plans, ASSUME, enum_plans
 def run(tier, seed):
     mc, sim = plans(tier)
     ck = nc.run_property("C11", tier, seed, "Inv11", PROFILE, mc, sim, 1500 if tier == "thorough" else 240, ASSUME, enum_plan=enum_plans(tier))
+    # ---- schedules: the timer check that finds a connection idle, under every schedule of the I/O loop, readers and writers ----
+    from .. import schedscen, nodetrace as nt
+    P = 2 if tier == "thorough" else 1
+    runs, n = schedscen.explore_scenario(schedscen.c11_watchdog_due_while_other_connection_busy, P, max_runs=20000 if tier == "thorough" else 1500, whole=True)
+    res = nt.mon_batch(runs[0][0]["params"], [r["steps"] for r, _ in runs], "c11_sched")
+    for (r, sched), v in zip(runs, res):
+        for x in v.get("C11", []):
+            ck.violation(x["sig"] + ":schedule", "scenario c11_watchdog_due_while_other_connection_busy under schedule %r: %s" % (
+                sched[:60], [nc.brief(e) for e in r["steps"][-2]["out"]]), {"sched_scenario": "c11_watchdog_due_while_other_connection_busy", "schedule": sched})
+    ck.cov["schedules_explored"] = n
+    ck.cov["schedule_preemption_bound"] = P
+    ck.cov["schedule_distinct_outcomes"] = len(runs)
     return ck.finish()
 
 
 def replay(path, seed):
+    import json
+    body = json.load(open(path))
+    if "sched_scenario" in (body.get("replay") or {}):
+        from .. import schedscen, explore, nodetrace as nt
+        rp = body["replay"]
+        r = getattr(schedscen, rp["sched_scenario"])(explore.Decisions(rp["schedule"]))
+        v = nt.mon_batch(r["params"], [r["steps"]], "c11_sched_replay")[0].get("C11", [])
+        print("replayed schedule: %s" % v)
+        if v:
+            print("VIOLATION property=C11 replay=%s" % path)
+            return 1
+        return 0
     return nc.replay_file("C11", path)
